@@ -210,7 +210,9 @@ def r2_lists(ctx, rep, R='C12.R2'):
             if f2 is None:
                 continue
             if all(isinstance(x, ast.Pass) or (isinstance(x, ast.Expr) and
-                                               isinstance(x.value, ast.Constant))
+                                               isinstance(x.value, ast.Constant)) or
+                   (isinstance(x, ast.Return) and (x.value is None or (
+                       isinstance(x.value, ast.Constant) and x.value.value is None)))
                    for x in f2.node.body):
                 continue        # a stream formatter (subunit) that has no listing by design
             p = params(f2)[1]
